@@ -1,5 +1,5 @@
 (** C30 — routing tables give loop-free shortest routes.  Property theorems only. *)
-From Akita Require Import Lib.Base C30.Model C30.ProofsMesh C30.ProofsLoop C30.ProofsFW.
+From Akita Require Import Lib.Base C30.Model C30.ProofsMesh C30.ProofsLoop C30.ProofsFW C30.ProofsConn.
 
 (** The in-place triple loop of [floydWarshall] is the textbook functional
     recurrence: the returned table is [iterF n] of the initial cells, and the call
@@ -50,6 +50,40 @@ Proof.
   destruct (fw_shortest g t H i j Hi Hj Hne) as [[_ [_ Hno]]|[_ [_ Hmin]]]; [contradiction|auto].
 Qed.
 Print Assumptions c30_route_loop_free_shortest.
+
+(** The routing tables of the switches: for EVERY sequence of connector calls
+    (AddSwitch / ConnectDevice / ConnectSwitches in any order, parallel links and
+    self loops included) that leaves every switch able to reach every device,
+    [EstablishRoute] does not panic, and following — from any switch, for any
+    device — the port the switch's table names, through that switch's own port
+    list, reaches the device after exactly [dist] switches (no walk in the
+    topology is shorter), without visiting a switch twice. *)
+Theorem c30_tables_reach_every_device : forall os c t,
+  apply_ops conn_empty os = (c, true) ->
+  floyd_warshall (graph_of c) = Some t ->
+  (forall s d, s < length (c_sw c) -> d < length (c_dev c) ->
+     reachable (graph_of c) (length (c_dev c) + s) d) ->
+  exists rt, establish_route c = Some rt /\
+    forall s d fuel, s < length (c_sw c) -> d < length (c_dev c) ->
+      dist t (length (c_dev c) + s) d <= fuel ->
+      exists path, follow (c_sw c) rt fuel s d = (path, true) /\
+                   length path = dist t (length (c_dev c) + s) d /\ NoDup path /\
+                   forall l, walk (graph_of c) (length (graph_of c)) (length (c_dev c) + s) d l -> length path <= l.
+Proof.
+  intros os c t Hops Hfw Hconn.
+  assert (W : WF c) by (eapply apply_ops_wf; [exact wf_empty|exact Hops]).
+  destruct (routes_exist c W t Hfw Hconn) as [rt [Hrt _]].
+  exists rt. split; [unfold establish_route; rewrite Hfw; exact Hrt|].
+  intros s d fuel Hs Hd Hf.
+  destruct (follow_reaches c W t Hfw Hconn rt Hrt d Hd _ fuel s Hs eq_refl Hf) as [path [Hp [Hl [Hnd _]]]].
+  exists path. split; [exact Hp|]. split; [exact Hl|]. split; [exact Hnd|].
+  intros l Hw. rewrite Hl.
+  assert (Hlen : length (graph_of c) = length (c_dev c) + length (c_sw c)) by apply g_length.
+  destruct (fw_shortest _ t Hfw (length (c_dev c) + s) d ltac:(lia) ltac:(lia) ltac:(lia)) as [[_ [_ Hno]]|[_ [_ Hmin]]].
+  - exfalso. apply Hno. exists l. exact Hw.
+  - apply Hmin. exact Hw.
+Qed.
+Print Assumptions c30_tables_reach_every_device.
 
 (** Mesh routing (meshRoutingTable.FindPort followed hop by hop): from every
     switch of the grid, towards every tile of the grid, the walk stays inside the
